@@ -213,9 +213,42 @@ def kymoImage (P : Nat) (pix : List Int) : List (List Int) := transposeN P (padR
 def Wave.kymoTimestamps (w : Wave) (P : Nat) : Option (List (List Int)) :=
   w.pixMean.map (kymoImage P)
 
-/-- `int(1e9 / infowave.sample_rate)` with `sample_rate = 1e9 / dt`, in IEEE doubles as the code
-    computes it (`dt − 1` for dt = 55, 57, 110, …). -/
-def deltaTs (dt : Int) : Int :=
+/-! ### IEEE-754 binary64 division, exactly (for `int(1e9 / (1e9 / dt))`) -/
+
+/-- round-half-to-even of the fraction `A / B` -/
+def roundHalfEven (A B : Nat) : Nat :=
+  let q := A / B
+  let r := A % B
+  if 2 * r < B then q else if B < 2 * r then q + 1 else if q % 2 = 0 then q else q + 1
+
+/-- the exponent of the `(c+1)`-bit float nearest to `p / q`, as a pair `(u, v)`: the unit in the last
+    place is `2^u / 2^v` (one of the two is `2^0`), chosen so that `2^c ≤ (p/q)·2^v/2^u < 2^(c+1)`: first
+    guess from the bit lengths (`Nat.log2`), one more when the scaled quotient reaches `2^(c+1)`. -/
+def rnExp (c p q : Nat) : Nat × Nat :=
+  if q * 2 ^ (p.log2 - (q.log2 + (c + 1))) * 2 ^ (c + 1) ≤ p * 2 ^ ((q.log2 + (c + 1)) - p.log2) then
+    (p.log2 - (q.log2 + c), (q.log2 + c) - p.log2)
+  else (p.log2 - (q.log2 + (c + 1)), (q.log2 + (c + 1)) - p.log2)
+
+/-- `p / q` in IEEE-754 binary64 with round-to-nearest-even, as an exact fraction (numerator,
+    denominator); `p`, `q` positive, quotient in the normal range (no subnormals, no overflow). -/
+def rnDiv (p q : Nat) : Nat × Nat :=
+  let uv := rnExp 52 p q
+  (roundHalfEven (p * 2 ^ uv.2) (q * 2 ^ uv.1) * 2 ^ uv.1, 2 ^ uv.2)
+
+/-- `int(1e9 / infowave.sample_rate)` with `sample_rate = 1e9 / dt` computed exactly as IEEE doubles do:
+    `rate = RN(10⁹/dt)`, `RN(10⁹/rate)`, truncation. -/
+def deltaSoft (dt : Nat) : Nat :=
+  let rate := rnDiv 1000000000 dt
+  let back := rnDiv (1000000000 * rate.2) rate.1
+  back.1 / back.2
+
+/-- `delta_ts = int(1e9 / infowave.sample_rate)` as the code computes it (`dt − 1` for dt = 55, 57,
+    110, …): the exact binary64 model above, so that the kernel can compute with it. -/
+def deltaTs (dt : Int) : Int := Int.ofNat (deltaSoft dt.toNat)
+
+/-- The same through Lean's hardware `Float` (opaque to the kernel) — only a cross-check of `rnDiv`,
+    printed next to `deltaTs` by op `c03.delta`. -/
+def deltaTsFloat (dt : Int) : Int :=
   let rate : Float := 1e9 / Float.ofInt dt
   Int.ofNat (1e9 / rate).toUInt64.toNat
 
@@ -407,6 +440,7 @@ def mkWave? (st dt iw : String) : Option Wave := do
 /-- ops (a wave is `start dt [codes]`):
   `c03.mean [a…]`                 `timestamp_mean`, then `T/F` = every intermediate fits int64, then #splits
   `c03.meanrows w [r;r;…]`        `timestamp_mean(axis=1)`, then `T/F` = every intermediate fits int64, then #splits
+  `c03.delta dt`                  `int(1e9 / sample_rate)`: exact binary64 model, then Lean's `Float`
   `c03.kts   <wave> P`            `Kymo.timestamps`, then `T/F` = every intermediate of the per-pixel mean fits int64, then #splits
   `c03.krex  <wave> P`            `line_timestamp_ranges()` followed by the δ used
   `c03.krin  <wave> P`            `line_timestamp_ranges(include_dead_time=True)`
@@ -433,6 +467,9 @@ def handle : List String → Option String
       | some v =>
         some (showIntList v ++ " " ++ showBool ((tsMeanRowsTrace rows w).all fitsI64) ++ " " ++
           toString (intMeanRowsSplits (rows.map fun r => r.map (· - listMin rows.flatten)) w))
+  | ["c03.delta", dt] => do
+    let dt ← int? dt
+    if dt ≤ 0 then none else some (toString (deltaTs dt) ++ " " ++ toString (deltaTsFloat dt))
   | ["c03.kts", st, dt, iw, p] => do
     let w ← mkWave? st dt iw; let p ← nat? p
     if p = 0 then none
